@@ -325,6 +325,8 @@ class _Hooks:
     branch = None        # callable(z3 BoolRef) -> bool
     decide_static = None  # callable(z3 BoolRef) -> True/False/None (under assumptions & PC)
     pick_int = None       # callable(z3 Int term) -> a feasible python int under assumptions & PC
+    floor = None          # callable(Q) -> Q: integer part of a finite, non-negative rational value (fresh Int unknown)
+    int_kinds = None      # callable() -> set of names of integer-valued inputs
 
 
 HOOKS = _Hooks()
@@ -600,6 +602,21 @@ class Q:
             isc(self.n) and isc(self.d) and self.rn is None
             and isb(self.nan) and isb(self.inf)
         )
+
+    def to_int64(self):
+        """C cast of a finite non-negative value to int64 (truncation): identity on integer-valued linear forms, otherwise
+        a fresh integer unknown k with k <= x < k + 1"""
+        if self.is_const:
+            return Q.lift(int(self.const_value()))
+        if not (isb(self.nan) and not self.nan and isb(self.inf) and not self.inf and self.rn is None and isc(self.d) and self.d == 1):
+            raise Unsupported("integer cast of a value that is not a finite polynomial")
+        if isinstance(self.n, Lin) and HOOKS.int_kinds is not None:
+            ints = HOOKS.int_kinds()
+            if all(nm in ints and co.denominator == 1 for nm, co in self.n.t) and self.n.c.denominator == 1:
+                return self
+        if HOOKS.floor is None:
+            raise Unsupported("integer cast of symbolic data outside an engine run")
+        return HOOKS.floor(self)
 
     def const_value(self):
         """float value of a constant Q (nan/inf included) or raise."""
